@@ -89,6 +89,10 @@ ImplNumbers ==
     /\ O.q.ds <= 1 /\ O.q.fc <= 1 /\ O.q.nac <= 1
     /\ O.ds.src # "unknown" /\ O.fc.src # "unknown" /\ O.nac.src # "unknown"
     /\ O.nac.factor \notin {"unknown", "missing"}
+(* a written zero is a value: every number of the saved dataset / force constants / NAC parameters that is 0.0, -0.0 or   *)
+(* prints as zero at the decimals of its format comes back as zero and its field is PRESENT (q.zeros: 0 yes, 9 no); the    *)
+(* energies of a type-1 dataset are judged per displaced supercell                                                       *)
+ImplZeros == AtEnd /\ OkObs => O.q.zeros = 0
 (* the same phonons (error class of the frequencies at the sampled q-points; negative = not compared) *)
 ImplPhonons == AtEnd /\ OkObs => O.q.phonons <= 1
 (* whenever the saved file determines the force data and NAC of the reloaded object, phonons were compared *)
